@@ -22,6 +22,10 @@ type goPanic struct {
 // pathAbort ends the current path without a verdict (assumption false, ...).
 type pathAbort struct{ reason string }
 
+// frontierAbort ends a path at the partitioning depth (its continuations are
+// handed to other workers as decision prefixes).
+type frontierAbort struct{}
+
 // engineError: the engine cannot continue soundly (unsupported construct,
 // bound exceeded). Makes the harness inconclusive.
 type engineError struct{ msg string }
@@ -75,6 +79,10 @@ type Machine struct {
 
 	// per harness
 	Res *HarnessResult
+
+	frontierDepth int     // >0: stop at this many decisions and record prefixes
+	Frontier      [][]int // recorded decision prefixes
+	fixedPrefix   int     // decisions below this index are not backtracked
 }
 
 // Hooks let the property driver observe and extend the machine.
@@ -130,10 +138,39 @@ func NewMachine(prog *ssa.Program, solver *Solver, cfg Config, hooks *Hooks) *Ma
 	return &Machine{Prog: prog, Solver: solver, Cfg: cfg, Hooks: hooks}
 }
 
+// RunFrontier explores fn but stops every path at `depth` decisions, recording
+// the decision prefixes to be continued by RunFrom. Paths that finish earlier
+// are complete and counted in the result.
+func (m *Machine) RunFrontier(fn *ssa.Function, depth int) (*HarnessResult, [][]int) {
+	m.frontierDepth = depth
+	m.Frontier = nil
+	res := m.RunHarness(fn)
+	m.frontierDepth = 0
+	return res, m.Frontier
+}
+
+// RunFrom explores the subtree below a decision prefix.
+func (m *Machine) RunFrom(fn *ssa.Function, prefix []int) *HarnessResult {
+	m.Res = &HarnessResult{Name: fn.Name(), Reached: map[string]int{}, Functions: map[string]bool{}}
+	m.dec = nil
+	for _, a := range prefix {
+		feas := make([]int8, a+1)
+		feas[a] = 1
+		m.dec = append(m.dec, decision{alt: a, n: a + 1, feas: feas})
+	}
+	m.fixedPrefix = len(prefix)
+	defer func() { m.fixedPrefix = 0 }()
+	return m.explore(fn)
+}
+
 // RunHarness explores all paths of fn (a niladic function).
 func (m *Machine) RunHarness(fn *ssa.Function) *HarnessResult {
 	m.Res = &HarnessResult{Name: fn.Name(), Reached: map[string]int{}, Functions: map[string]bool{}}
 	m.dec = nil
+	return m.explore(fn)
+}
+
+func (m *Machine) explore(fn *ssa.Function) *HarnessResult {
 	start := time.Now()
 	for {
 		if m.Cfg.MaxWallS > 0 && time.Since(start).Seconds() > float64(m.Cfg.MaxWallS) {
@@ -168,7 +205,7 @@ func (m *Machine) inconclusive(format string, a ...interface{}) {
 }
 
 func (m *Machine) backtrack() bool {
-	for len(m.dec) > 0 {
+	for len(m.dec) > m.fixedPrefix {
 		d := &m.dec[len(m.dec)-1]
 		next := d.alt + 1
 		for next < d.n && d.feas[next] == 2 {
@@ -207,6 +244,10 @@ func (m *Machine) runPath(fn *ssa.Function) {
 		m.Res.Steps += m.steps
 		if r := recover(); r != nil {
 			switch x := r.(type) {
+			case frontierAbort:
+				if m.pos < len(m.dec) {
+					m.dec = m.dec[:m.pos]
+				}
 			case pathAbort:
 				m.Res.Pruned++
 				// drop decisions beyond the point reached so that backtracking
@@ -324,6 +365,18 @@ func (m *Machine) choose(n int, exhaustive bool, cond func(i int) *Term) int {
 	}
 	if first < 0 {
 		panic(pathAbort{"no feasible alternative"})
+	}
+	if m.frontierDepth > 0 && len(m.dec) >= m.frontierDepth {
+		base := make([]int, 0, len(m.dec)+1)
+		for _, d := range m.dec {
+			base = append(base, d.alt)
+		}
+		for alt := 0; alt < n; alt++ {
+			if feas[alt] == 1 {
+				m.Frontier = append(m.Frontier, append(append([]int(nil), base...), alt))
+			}
+		}
+		panic(frontierAbort{})
 	}
 	m.dec = append(m.dec, decision{alt: first, n: n, feas: feas})
 	m.Res.Decisions++
